@@ -1,5 +1,7 @@
 package fixture
 
+import "bufio"
+
 // Edge mimics the sentinel convention of gotree's tree.Edge for the SENTINEL control.
 type Edge struct {
 	length, support, pvalue float64
@@ -16,4 +18,35 @@ func C05ZeroAsAbsent(from, to *Edge) {
 	if length > 0 {
 		to.SetLength(length / 2)
 	}
+}
+
+// C05ReadString: positive control of LASTLINE.
+func C05ReadString(r *bufio.Reader) []string {
+	var out []string
+	line, err := r.ReadString('\n')
+	for err == nil {
+		out = append(out, line)
+		line, err = r.ReadString('\n')
+	}
+	return out
+}
+
+// C09AdjPairs: positive control of ADJ-PAIRS (the last adjacent pair is never compared).
+func C09AdjPairs(names []string) bool {
+	for i := 1; i < len(names)-1; i++ {
+		if names[i] == names[i-1] {
+			return true
+		}
+	}
+	return false
+}
+
+// C09AdjPairsOK: all pairs are visited (must stay silent).
+func C09AdjPairsOK(names []string) bool {
+	for i := 0; i < len(names)-1; i++ {
+		if names[i] == names[i+1] {
+			return true
+		}
+	}
+	return false
 }
